@@ -38,6 +38,9 @@ def obligations(tier):
            call="props.c17:ob_pp"),
         Ob("C17.fmt", "N", "compact date-time text yyyymmddhhmmss + fraction digits -> ISO 8601 of the same instant (scene centre: ms digits, volume creation: 1/100 s digits)",
            ["ceos_alos2.transformers:normalize_datetime"], bounds="forall digit strings with valid zero-padded fields, 2..3 fraction digits", call="props.c17:ob_fmt"),
+        Ob("C17.e2e", "E", "witness replay: one instant (29 Feb, day 366, last millisecond of a day, ...) written into the image line record, the attitude point, the platform-position "
+           "first point and the scene-centre field reads back as the same datetime everywhere", ["ceos_alos2.xarray:open_alos2"], bounds="concrete replays (not the deciding step): 5 instants",
+           call="props.e2e:ob_times", wall_timeout=600),
     ]
 
 
